@@ -17,7 +17,7 @@ RULE = ("generated projects of 2-6 .ucg files over 1-3 directories (entries with
         "distinct = distinct (sequence of (role, fail kind, out converter, imports-as-role-list) in build order, mode, repeat); "
         "non-trivial = the batch has >=2 files sharing an import, or a dual-role file, or a failing file next to a succeeding one")
 
-EXT = {"json": "json", "yaml": "yaml", "toml": "toml", "env": "env", "flags": "txt"}
+EXT = {"json": "json", "yaml": "yaml", "toml": "toml", "env": "env", "flags": "txt", "xml": "xml", "yamlmulti": "yaml"}
 FAULT_KINDS = ["eisdir", "enospc", "efbig", "nonutf8_source", "dangling_source"]
 PROBES = ["dual_built_before_importer", "dual_built_after_importer", "shared_lib_two_entries", "failing_first", "failing_middle",
           "failing_last", "same_basename_pair", "second_run_over_artifacts", "listed_twice", "dir_walk_order_differs_from_sorted",
@@ -27,7 +27,7 @@ TIERS = {
     "thorough": {"runs": 5000, "wall_cap": 3300, "reexecute": 60},
 }
 FAILS = ["syntax", "type", "runtime", "runtime_opaque", "convert", "missing_import", "post_out", "lazy_missing_import", "lazy_broken_import",
-         "strict_only_field", "strict_only_env"]
+         "strict_only_field", "strict_only_env", "convert_late_xml", "convert_late_yamlmulti"]
 SPELL = ["plain", "dot", "dotdot", "redundant", "abs"]
 
 
@@ -188,7 +188,12 @@ def render_file(world, i, root_abs):
         L.append('let never_called = func (x) => (import "./does-not-exist-%s.ucg").id;' % f["uid"])
     elif fail == "lazy_broken_import":
         L.append('let maybe = select ("a", "dflt") => { a = "taken", b = (import "./broken-%s.ucg").id };' % f["uid"])
-    if f["out"]:
+    if fail == "convert_late_xml":
+        L.append('out xml {root = {name = "r", attrs = {id = id}, children = [{name = "ok"}, {name = "ok2", children = [{name = "deep"}]}, 1]}};')
+    elif fail == "convert_late_yamlmulti":
+        L.append("constraint pr = in 1..10;")
+        L.append("out yamlmulti [{id = id}, {deps = deps}, pr];")
+    elif f["out"]:
         if fail == "convert":
             L.append("out toml {id = id, bad = NULL};")
         else:
@@ -210,6 +215,10 @@ def render_file(world, i, root_abs):
 def artifact_rel(f):
     if f["fail"] == "convert":
         conv = "toml"
+    elif f["fail"] == "convert_late_xml":
+        conv = "xml"
+    elif f["fail"] == "convert_late_yamlmulti":
+        conv = "yamlmulti"
     elif f["out"]:
         conv = f["out"]
     else:
